@@ -256,6 +256,14 @@ func (ev *gEnv) term1(v ssa.Value) cT {
 		}
 		a, b := ev.term(x.X), ev.term(x.Y)
 		if a.kind == 'i' && b.kind == 'i' {
+			// arithmetic in a type narrower than 64 bits can wrap (uint32(tableSize) + uint32(dataSize)): it is not
+			// the mathematical sum unless both operands are constants; name the result by its operands instead
+			if lo, hi, ok := typeRange(x.Type()); ok && new(big.Int).Sub(hi, lo).BitLen() < 64 && !(a.l.isConst() && b.l.isConst()) {
+				switch x.Op {
+				case token.ADD, token.SUB, token.MUL:
+					return ev.intSym(fmt.Sprintf("(%s %s %s)", an.str(a), x.Op, an.str(b)), x.Type())
+				}
+			}
 			switch x.Op {
 			case token.ADD:
 				return cT{kind: 'i', l: a.l.add(b.l)}
